@@ -33,7 +33,7 @@ def sig(pkey, skey, observable, trigger):
 
 
 def shape_sig(td):
-    return tuple((k, tuple(v.shape[1:]), str(v.dtype)) for k, v in sorted(td.items()))
+    return E.group_sig(td)
 
 
 def stackable_instances(spec, seed, k=4):
